@@ -35,7 +35,7 @@ from vf.symx import Ctx, Kernel  # noqa: E402
 
 PID = "C10"
 
-_MODE = {"ctx": None, "n": 0}
+_MODE: dict = {"ctx": None, "n": 0, "ranks": {}}
 
 
 class NDSet:
@@ -53,16 +53,25 @@ class NDSet:
     def __iter__(self) -> Any:
         rest = sorted(self.items, key=_key)
         c = _MODE["ctx"]
-        if c is None:
+        if c is None or len(rest) < 2:
             yield from rest
             return
-        while rest:
-            if len(rest) == 1:
-                yield rest.pop()
-                continue
-            _MODE["n"] += 1
-            k = c.choose(f"iter{_MODE['n']}", len(rest))
-            yield rest.pop(k)
+        # hash-seed model: one symbolic rank per hashable element for the whole run; every set
+        # iterates in rank order (the solver ranges over all rank assignments)
+        ranks = _MODE["ranks"]
+        out: list = []
+        for x in rest:
+            k = repr(_key(x))
+            if k not in ranks:
+                r = c.int("rank:" + k)
+                for other in ranks.values():
+                    c.solver.add(r.t != other.t)
+                ranks[k] = r
+            pos = len(out)
+            while pos > 0 and bool(ranks[k] < ranks[repr(_key(out[pos - 1]))]):
+                pos -= 1
+            out.insert(pos, x)
+        yield from out
 
     def __len__(self) -> int:
         return len(self.items)
@@ -265,6 +274,7 @@ def explore_partition(arg: tuple) -> tuple:
 
     def body(c: Ctx) -> None:
         _MODE["n"] = 0
+        _MODE["ranks"] = {}
         edges = {}
         for idx, pr in enumerate(PAIRS):
             if idx < 2:
@@ -300,8 +310,8 @@ def main(args: Any) -> int:
     KG, KB, _ = load_kernels()
     rep.kernels_from(KG)
     rep.kernels_from(KB)
-    rep.bounds += ["3 modules; every edge absent / direct (PRI_HIGH) / indirect (PRI_INDIRECT); every State.order permutation; every iteration order of every set iterated by the kernels"]
-    rep.assumptions += ["State.order values are distinct (State.order_counter)", "the hash function is applied to the recorded token stream (typed token buffer instead of WriteBuffer)"]
+    rep.bounds += ["3 modules; every edge absent / direct (PRI_HIGH) / indirect (PRI_INDIRECT); every State.order permutation; every assignment of iteration ranks to the hashable elements (module ids and SCC sets): a hash-seed model in which each run fixes one order per element universe and every set iterates in that order"]
+    rep.assumptions += ["State.order values are distinct (State.order_counter)", "set iteration order is modelled as a per-run total order on elements (insertion-history effects of CPython's open addressing are not modelled)", "the hash function is applied to the recorded token stream (typed token buffer instead of WriteBuffer)"]
     rep.outside += ["hash-seed independence of whole runs and of cache bytes; independence from earlier builds in the same process: global interpreter state, not encodable"]
     perms = list(itertools.permutations([1, 2, 3]))
     parts = [(p, m) for p in perms for m in range(9)]
